@@ -113,6 +113,22 @@ func c19Family(name string, r *rand.Rand, thorough bool) *c19Scenario {
 			{c19Delete(101, 0), c19Create(101, "app", b0)},
 			{c19Create(102, "app", b0)},
 		}
+	case "sweep-vs-claims":
+		// the production expiry sweep runs while other clients try to take a paused
+		// (inactive, unexpired) name, an expired name and an active name
+		sc.Setup = []c19Op{
+			c19Create(101, "paused", b0), {K: "update", C: 101, Ref: 0, Upd: "inactive"},
+			c19Create(102, "lapsed", b0), {K: "update", C: 102, Ref: 2, Upd: "past"},
+			c19Create(103, "app", b0),
+		}
+		sc.Threads = [][]c19Op{
+			{{K: "sweep"}},
+			{c19Create(104, "paused", b0), c19Create(104, "lapsed", b0)},
+			{c19Lookup("paused." + b0), c19Lookup("app." + b0 + ":80")},
+		}
+		if r.Intn(2) == 0 {
+			sc.Threads = append(sc.Threads, []c19Op{c19Create(105, "app", b0), {K: "sweep"}})
+		}
 	case "random":
 		subs := []string{"app", "api"}
 		nSetup := r.Intn(3)
@@ -401,17 +417,24 @@ func (x *c19Exe) judge(sc *c19Scenario, w *c19World, results []c19Res, trace []s
 		follow = append(follow, r)
 		no++
 		x.run.Count("followup_claims", 1)
-		live := len(tr.live[name])
+		def := tr.definite(name)
+		live := len(def)
 		switch {
+		case tr.maybe(name):
+			// an expired claim that a sweep may or may not have removed: both outcomes fine
+			x.run.Count("followup_claim_on_maybe_swept_name", 1)
 		case live == 1 && r.OK:
 			x.run.Count("followup_claim_on_owned_name_succeeded", 1)
-			x.violation("double-owner", sc, tr, trace, follow, map[string]any{"name": name, "owner": tr.live[name][0], "second_claim": r})
+			x.violation("double-owner", sc, tr, trace, follow, map[string]any{"name": name, "owner": def[0], "second_claim": r})
 		case live == 0 && !r.OK:
 			x.violation("not-reclaimable", sc, tr, trace, follow, map[string]any{"name": name, "claim": r})
 		case live == 0 && r.OK:
 			x.run.Count("followup_reclaims_ok", 1)
 		case live == 1 && !r.OK:
 			x.run.Count("followup_claim_on_owned_name_refused", 1)
+			if !def[0].Active && !def[0].Expired {
+				x.run.Count("followup_claim_on_paused_name_refused", 1)
+			}
 		}
 	}
 	tr2 := c19Audit(follow)
@@ -438,8 +461,8 @@ func (x *c19Exe) judgeNonOwnerDeletes(sc *c19Scenario, tr *c19Truth, results []c
 			holders[c.ID] = map[int64]bool{}
 		}
 		holders[c.ID][c.Client] = true
-		if c.Deleted {
-			ownerDeleted[c.ID] = true
+		if c.Deleted || c.MaybeGone {
+			ownerDeleted[c.ID] = true // removed by its owner, or (possibly) by the expiry sweep
 		}
 	}
 	for _, r := range results {
@@ -498,7 +521,7 @@ func TestVerifC19Schedules(t *testing.T) {
 	rnd := run.Rand("families")
 	thorough := run.Thorough()
 
-	families := []string{"same-name", "diff-names", "same-client-two-names", "create-delete-lookup", "double-delete-reclaim", "nonowner-delete", "delete-reclaim-chain", "random"}
+	families := []string{"same-name", "diff-names", "same-client-two-names", "create-delete-lookup", "double-delete-reclaim", "nonowner-delete", "delete-reclaim-chain", "sweep-vs-claims", "random"}
 	exploreRuns := run.Pick(12, 1500)
 	randomRuns := run.Pick(12, 700)
 	const maxSteps = 600
@@ -602,6 +625,7 @@ func TestVerifC19Schedules(t *testing.T) {
 	run.Floor("nonowner_deletes_refused", 10)
 	run.Floor("followup_claim_on_owned_name_refused", 50)
 	run.Floor("followup_reclaims_ok", 20)
+	run.Floor("followup_claim_on_paused_name_refused", 50)
 }
 
 // ---------------------------------------------------------------- monitor 2: sequential histories
@@ -623,7 +647,10 @@ func TestVerifC19Histories(t *testing.T) {
 			var results []c19Res
 			var fp strings.Builder
 			steps := 6 + rnd.Intn(10)
-			for i := 0; i < steps; i++ {
+			pausedNo, pausedSub, pausedBase := -1, "", ""
+			// every history ends with: pause one claim, let another lapse, run the expiry
+			// sweep, a stranger claims the paused name, the owner resumes
+			for i := 0; i < steps+5; i++ {
 				tr := c19Audit(results)
 				op := c19Op{No: len(results), Node: rnd.Intn(2)}
 				var liveClaims []*c19Claim
@@ -638,7 +665,28 @@ func TestVerifC19Histories(t *testing.T) {
 						}
 					}
 				}
-				switch p := rnd.Intn(10); {
+				var steady []*c19Claim // active, unexpired, certainly there
+				for _, c := range liveClaims {
+					if c.Active && !c.Expired && !c.MaybeGone && c.No != pausedNo {
+						steady = append(steady, c)
+					}
+				}
+				tail := i - steps
+				switch p := rnd.Intn(11); {
+				case tail == 0 && len(steady) > 0:
+					c := steady[rnd.Intn(len(steady))]
+					op.K, op.C, op.Ref, op.Upd = "update", c.Client, c.No, "inactive"
+					pausedNo = c.No
+					pausedSub, pausedBase, _ = strings.Cut(c.Name, ".")
+				case tail == 1 && len(steady) > 0:
+					c := steady[rnd.Intn(len(steady))]
+					op.K, op.C, op.Ref, op.Upd = "update", c.Client, c.No, "past"
+				case tail == 2 || p == 10:
+					op.K = "sweep"
+				case tail == 3 && pausedNo >= 0:
+					op.K, op.C, op.Sub, op.Base = "create", 150, pausedSub, pausedBase
+				case tail == 4 && pausedNo >= 0:
+					op.K, op.C, op.Ref, op.Upd = "update", results[pausedNo].Op.C, pausedNo, "active"
 				case p < 4 || len(liveClaims) == 0:
 					op.K, op.C, op.Sub, op.Base = "create", int64(101+rnd.Intn(4)), subs[rnd.Intn(3)], c19Bases[rnd.Intn(2)]
 				case p < 6:
@@ -652,7 +700,7 @@ func TestVerifC19Histories(t *testing.T) {
 					op.K, op.C, op.Ref = "update", c.Client, c.No
 					op.Upd = []string{"port", "inactive", "active", "expired", "past", "future"}[rnd.Intn(6)]
 				}
-				fp.WriteString(op.K[:1] + op.Upd + ",")
+				fp.WriteString(op.K[:2] + op.Upd + ",")
 				sc.Setup = append(sc.Setup, op)
 				before := tr
 				r := c19Exec(w, op, results)
@@ -661,17 +709,30 @@ func TestVerifC19Histories(t *testing.T) {
 				run.Count("steps", 1)
 				if !r.Ran {
 					run.Count("steps_skipped", 1)
+					if op.K == "update" && r.Gone {
+						// the owner wants to change (e.g. resume) its mapping and it is gone
+						for _, c := range before.definite(all19Name(results, op.Ref)) {
+							if c.No == op.Ref {
+								x.violation("mapping-removed-without-owner-delete", sc, before, nil, results, map[string]any{"claim": c, "update": r})
+							}
+						}
+					}
 					continue
 				}
 				trN := c19Audit(results)
 				// step outcome
 				switch op.K {
 				case "create":
-					switch n := len(before.live[op.full()]); {
+					switch n := len(before.definite(op.full())); {
+					case before.maybe(op.full()):
+						run.Count("claims_on_maybe_swept_names", 1)
 					case n >= 1 && r.OK:
 						x.violation("double-owner", sc, trN, nil, results, map[string]any{"name": op.full(), "second_claim": r})
 					case n >= 1:
 						run.Count("claims_refused_owned", 1)
+						if c := before.definite(op.full())[0]; !c.Active && !c.Expired {
+							run.Count("claims_refused_on_paused_names", 1)
+						}
 					case n == 0 && !r.OK && before.touched[op.full()]:
 						x.violation("not-reclaimable", sc, trN, nil, results, map[string]any{"claim": r})
 					case n == 0 && r.OK:
@@ -685,6 +746,20 @@ func TestVerifC19Histories(t *testing.T) {
 				case "update":
 					if r.OK {
 						run.Count("updates_ok_"+op.Upd, 1)
+					}
+				case "sweep":
+					if r.OK {
+						run.Count("sweeps_ok", 1)
+						for _, l := range before.live {
+							for _, c := range l {
+								if !c.Active && !c.Expired && !c.StatusExpired {
+									run.Count("sweeps_over_paused_claims", 1)
+								}
+								if c.Expired {
+									run.Count("sweeps_over_expired_claims", 1)
+								}
+							}
+						}
 					}
 				}
 				// routing of every name after the step
@@ -758,6 +833,69 @@ func TestVerifC19Histories(t *testing.T) {
 		w.Close()
 	}
 
+	// time passes: a claim must keep its name for as long as the mapping is live, also
+	// after every cache TTL of the hybrid storage has elapsed. The hybrid stores are
+	// built with millisecond TTLs (DefaultCacheTTL always; SharedCacheTTL too when a
+	// persistent tier backs the records), the claims age certainly beyond them
+	// (interval rule: the pause starts after the creates RETURNED and lasts 3×TTL;
+	// miniredis' clock is fast-forwarded by the same amount), then the usual audit
+	// runs: routing, a second claim must be refused, owner delete, re-claim.
+	{
+		const ttl = 120 * time.Millisecond
+		type aged struct {
+			w       *c19World
+			sc      *c19Scenario
+			results []c19Res
+		}
+		for rep := 0; rep < run.Pick(2, 8) && !x.stop; rep++ {
+			var worlds []*aged
+			for _, kind := range []string{"hybrid-mem", "hybrid-redis", "hybrid-2node"} {
+				for _, persist := range []bool{false, true} {
+					o := c19WorldOpts{counterTTL: ttl, persist: persist}
+					label := kind + ",aged"
+					if persist {
+						o.sharedTTL = ttl
+						label = kind + "+persistent,aged"
+					}
+					// worlds on redis share one miniredis: they are built and aged one after another
+					a := &aged{w: nil, sc: &c19Scenario{Family: "time-passes", Kind: label}}
+					a.sc.Setup = []c19Op{
+						{No: 0, K: "create", C: 101, Sub: "app", Base: c19Bases[0]},
+						{No: 1, K: "update", C: 101, Ref: 0, Upd: "future"}, // a dated mapping, far from its end
+						{No: 2, K: "create", C: 102, Sub: "api", Base: c19Bases[rep%2], Node: 1},
+						{No: 3, K: "create", C: 103, Sub: "paused", Base: c19Bases[0]},
+						{No: 4, K: "update", C: 103, Ref: 3, Upd: "inactive"},
+					}
+					a.sc.nops = len(a.sc.Setup)
+					run.Case("time-passes|"+label, a.sc)
+					a.w = c19NewWorld(t, kind, rd, o)
+					for _, op := range a.sc.Setup {
+						a.results = append(a.results, c19Exec(a.w, op, a.results))
+					}
+					if kind == "hybrid-mem" {
+						worlds = append(worlds, a) // aged together below
+						continue
+					}
+					time.Sleep(3 * ttl)
+					rd.mr.FastForward(3 * ttl)
+					x.judge(a.sc, a.w, a.results, nil)
+					run.Eval(1)
+					run.Count("aged_worlds_audited", 1)
+					a.w.Close()
+				}
+			}
+			time.Sleep(3 * ttl)
+			for _, a := range worlds {
+				x.judge(a.sc, a.w, a.results, nil)
+				run.Eval(1)
+				run.Count("aged_worlds_audited", 1)
+				a.w.Close()
+			}
+		}
+		run.Floor("aged_worlds_audited", int64(run.Pick(12, 48)))
+		run.Floor("followup_claim_on_owned_name_refused", 30)
+	}
+
 	run.Floor("steps", int64(run.Pick(1000, 15000)))
 	run.Floor("claims_ok", 200)
 	run.Floor("claims_refused_owned", 50)
@@ -765,6 +903,15 @@ func TestVerifC19Histories(t *testing.T) {
 	run.Floor("nonowner_deletes_refused", 30)
 	run.Floor("lookups_quiescent_routed", 500)
 	run.Floor("lookups_of_inactive_or_expired_names", 100)
+	run.Floor("sweeps_over_paused_claims", 30)
+	run.Floor("sweeps_over_expired_claims", 30)
+}
+
+func all19Name(results []c19Res, no int) string {
+	if no >= 0 && no < len(results) {
+		return results[no].Op.full()
+	}
+	return ""
 }
 
 // ---------------------------------------------------------------- monitor 3: Host spellings
